@@ -8,7 +8,7 @@ import (
 func init() {
 	props = append(props, prop{
 		ID: "C05", Title: "Per-connection job serialization: FIFO, one at a time, exactly once", Level: "exploration",
-		Rule: "history monitor over Conn.Execute/MustExecute on real accepted connections: 1-16 submitters x 1-4 connections x {nbio's inline default, goroutine-per-call, bounded taskpool} executor x job durations x seeded delays at execute.afterAppend/execute.afterJob/close.beforeTeardown x GOMAXPROCS {1,2,16} x Close racing the submissions; exactly-once decided in the final state (all submitters returned, no executor closure pending, nobody inside), mutual exclusion by an inside counter and interval sweep, real-time FIFO by a sweep cross-checked with porcupine on histories <= 30 jobs. evaluations = histories (cases); a case is non-trivial only if more than one drainer generation ran AND at least once a drainer finished the last queued job while another submitter was inside Execute/MustExecute on that connection (the two-party hand-over window, observed at the execute.afterJob hook); distinct by case index The close callback of every connection queues a close-handling job with MustExecute (as nbhttp does): no job accepted by Execute may run behind it - such a job was appended to a connection that was closed already.",
+		Rule: "history monitor over Conn.Execute/MustExecute on real accepted connections: 1-16 submitters x 1-4 connections x {nbio's inline default, goroutine-per-call, bounded taskpool} executor x job durations x seeded delays at execute.afterAppend/execute.afterJob/close.beforeTeardown x GOMAXPROCS {1,2,16} x Close racing the submissions; exactly-once decided in the final state (all submitters returned, no executor closure pending, nobody inside), mutual exclusion by an inside counter and interval sweep, real-time FIFO by a sweep cross-checked with porcupine on histories <= 30 jobs. evaluations = histories (cases); a case is non-trivial only if more than one drainer generation ran AND at least once a drainer finished the last queued job while another submitter was inside Execute/MustExecute on that connection (the two-party hand-over window, observed at the execute.afterJob hook); distinct by case index The close callback of every connection queues a close-handling job with MustExecute (as nbhttp does): no job accepted by Execute may run behind it - such a job was appended to a connection that was closed already.. Phase http: the same clause for nbhttp's own jobs - per engine cell (IOMod x plain/TLS x epoll mode) raw clients write 2-5 pipelined requests in one segment, the handler of the first is held so that the others are queued behind it, the client closes while it is inside; in the log (one atomic clock) no two handler invocations of a connection overlap, they run in request order, and the notification registered with Engine.OnClose neither arrives while a handler of that connection is inside nor is followed by a handler start",
 		Assumptions: append([]string{
 			"the logical clock is one atomic counter: tick order is consistent with happens-before, so A.ret < B.call implies A's submit returned before B's was invoked",
 			"hook callbacks (build tag verif) only delay; VerifJobs/VerifBacklog read under the connection's own mutex",
@@ -16,6 +16,7 @@ func init() {
 		Phases: []phase{
 			{Name: "main", Pkg: "./workers/c05", QuickShards: 8, ThorShards: 14, QuickTO: 4 * time.Minute},
 			{Name: "race", Pkg: "./workers/c05", Race: true, QuickShards: 4, ThorShards: 8, QuickTO: 4 * time.Minute},
+			{Name: "http", Pkg: "./workers/c05", QuickShards: 12, ThorShards: 16, QuickTO: 4 * time.Minute},
 		},
 		// the optional prefix covers inlining: execute's closure inlined into Execute is
 		// reported as nbio.(*Conn).Execute.(*Conn).execute.func1
